@@ -23,7 +23,7 @@ TAG_CORPUS = "C13/corpus"
 
 TIERS = {
     "quick": dict(seeds=3, generated=120, mutated=160, d3_every=2, aslr_probe=24, zoo_step=3),
-    "thorough": dict(seeds=8, generated=8000, mutated=12000, d3_every=1, aslr_probe=300, zoo_step=1),
+    "thorough": dict(seeds=8, generated=8000, mutated=12000, d3_every=1, aslr_probe=300, zoo_step=1, large_runs=120),
 }
 
 ESC = b"\x1b"
@@ -687,6 +687,15 @@ def run(tier, seed):
     findings = parallel_map(_min_job, jobs)
     observed_codes = {c for lst in diag_lists for c in lst}
     findings += catalogue_findings(observed_codes)
+    large_runs = 0
+    for res in parallel_map(_large_run_job, [(seed, i) for i in range(cfg.get("large_runs", 4))]):
+        large_runs += res["runs"]
+        tot["runs"] += res["runs"]
+        if res["violation"]:
+            cls, detail = res["violation"]
+            findings.append(Finding(PROP, cls, {"engine": "detsim", "large_run": True, "index": res["i"], "seed": seed, "run_seed": "large-%d" % res["i"],
+                                                "files": {"main.pn": res["single"]}, "observed": {"class": cls, "detail": detail}},
+                                    signature=cls, summary=detail))
     # ASLR-on probe (thorough): the one source the simulator samples but cannot replay
     aslr_diff = 0
     aslr_n = 0
@@ -720,6 +729,7 @@ def run(tier, seed):
         "named_spans_checked": tot["named_spans_checked"],
         "report_messages_checked": tot["messages_checked"],
         "verbose_mode_runs": tot["verbose_runs"],
+        "large_program_run_build_executions": large_runs,
         "aslr_probe_sets": aslr_n,
         "aslr_probe_differences": aslr_diff,
         "runs_per_hour": rate_per_hour(tot["runs"], wall),
@@ -742,6 +752,47 @@ def run(tier, seed):
     return 1 if n_viol else 0
 
 
+def _large_run_job(args):
+    """D1 for `penne run` / `penne build` of a program whose linked IR exceeds
+    the pipe buffer: what penne prints (the `Running ...` echo included) and what
+    the backend receives must not depend on entropy, clock, pid or TMPDIR."""
+    seed, i = args
+    rng = rng_for(seed, "C13/large_run", i)
+    prog = pngen.generate(rng, n_funcs=rng.randint(110, 170))
+    wd = os.path.join(work_root(), "C13", "large%d" % i)
+    fresh_dir(wd)
+    write_files(wd, {"main.pn": prog.single_file()})
+    os.makedirs(os.path.join(wd, "bin"))
+    sub = rng.choice(["run", "build"])
+    name = "lli" if sub == "run" else "clang"
+    shutil.copy(STUB, os.path.join(wd, "bin", name))
+    obs = []
+    for k in range(3):
+        env = base_env({"PATH": os.path.join(wd, "bin") + ":" + SYSTEM_PATH, "VERIF_STUB_SCRIPT": "read=all,exit=0",
+                        "VERIF_STUB_MARKER": os.path.join(wd, "marker%d" % k), "TMPDIR": os.path.join(wd, "tmp%d" % (k % 2))})
+        os.makedirs(env["TMPDIR"], exist_ok=True)
+        env = sim_env(env, entropy=rng.getrandbits(64), clock=(rng.randrange(10**9, 10**18), 1000), pid=rng.randrange(2, 4_000_000))
+        r = run_proc([PENNE, sub, "--color=never", "--arrows=ascii", "main.pn"], wd, env)
+        try:
+            with open(os.path.join(wd, "marker%d" % k)) as f:
+                marker = re.sub(r"marker\d", "marker", f.read())
+        except OSError:
+            marker = ""
+        left = sorted(os.listdir(env["TMPDIR"]))
+        obs.append((r.status(), r.out.replace(env["TMPDIR"].encode(), b"$TMPDIR"), sha(r.err), marker, left))
+    shutil.rmtree(wd, ignore_errors=True)
+    viol = None
+    for o in obs[1:]:
+        if o != obs[0]:
+            a, b = obs[0][1], o[1]
+            k = next((j for j in range(min(len(a), len(b))) if a[j] != b[j]), min(len(a), len(b)))
+            what = "stdout differs at byte %d: %r vs %r" % (k, a[max(0, k - 40):k + 50], b[max(0, k - 40):k + 50]) if a != b else \
+                ("backend invocation differs: %s vs %s" % (obs[0][3][:120], o[3][:120]) if obs[0][3] != o[3] else "status/stderr/temporary files differ: %s vs %s" % (obs[0][4], o[4]))
+            viol = ("nondeterministic_run_output", "`penne %s` of a %d-function program: %s" % (sub, len(prog.items), what))
+            break
+    return {"i": i, "sub": sub, "violation": viol, "runs": 3, "single": prog.single_file() if viol else None}
+
+
 def _aslr_job(args):
     s, i = args
     wd = os.path.join(work_root(), "C13", "aslr%d" % i)
@@ -761,6 +812,14 @@ def _aslr_job(args):
 
 def replay(record):
     disable_aslr()
+    if record.get("large_run"):
+        res = _large_run_job((record["seed"], record["index"]))
+        if res["violation"]:
+            print("replay: %s: %s" % res["violation"])
+            print("VIOLATION property=%s replay=%s" % (PROP, record.get("_path", "?")))
+            return 1
+        print("replay: not reproduced")
+        return 0
     if record.get("static_catalogue_check"):
         hit = [f for f in catalogue_findings(set()) if f.record["code"] == record["code"]]
         print("replay: %s %s docs/errors.md" % (record["code"], "is still missing from" if hit else "is now in"))
